@@ -9,7 +9,7 @@ CHECKS = {
     "C19": {
         "text": "Structural = the property: every global definition in every buildable configuration (host, 3 other Unix entropy variants, TRNG-none, volatile-clean; "
                 "N0 and -O3 IR) is constant and non-TLS, every external call is in a per-configuration allow-list of stateless imports (no heap, no VLA), no parameter pointer "
-                "is stored outside the frame except the documented callback retention, and the 27 assembly programs define no writable section. With these, a call's effect is "
+                "is stored outside the frame except the documented callback retention (a file-local helper's stores count as its callers': accepted when no call site is left after inlining or every call site hands on a parameter whose retention is documented), and the 27 assembly programs define no writable section. With these, a call's effect is "
                 "confined to its arguments and frame, so calls on disjoint objects commute under every schedule. R-C19-FRESH: the PRNG initialisers leave no byte of the caller's object that they later hash to its previous content (the other carrier of 'depends on earlier unrelated calls'); listed as not decided when the seeding summary does not follow the code. R-C19-FRESH: the buffer handed to the entropy source is defined before the request in the initialisers and in reseed (a short delivery must not leave residue of the caller's object or of the stack in what is hashed).",
         "note": "Trusted: clang 14 front end; allow-listed libc functions are thread-safe and errno is per-thread. gcc builds are covered at symbol level only (thorough tier). "
                 "Windows/Arduino/ESP/STM32 TRNG files are not buildable here and not covered.",
@@ -169,12 +169,12 @@ CHECKS = {
     "C12": {
         "text": "RFC 2104 structure for every key-length class (each length 0..64 and the class > 64): in init, reinit and finalize the 64-byte block absorbed equals (key ^ pad) || pad-padding byte for "
                 "byte (ipad 0x36, opad 0x5C), long keys are hashed to 32 bytes first, the block is wiped; finalize = inner digest, outer key block, update(inner digest, 32), finalize(out); update is a "
-                "wrapper; one-shot = init/update/finalize/wipe. A key-length class that the code splits further (a test of the key pointer against null, an alignment) is checked once per path: each must set the documented block up; a null key with a non-zero length is outside the contract. Hash primitives are uninterpreted events whose outputs are fresh symbols. Premise R-C12-HASH re-runs all rules of C10/C11.",
+                "wrapper; one-shot = init/update/finalize/wipe. Long keys reduced by the one-shot tinyjambu_hash into the local block are recognised as that preprocessing; hmac_update may return early for length 0. A key-length class that the code splits further (a test of the key pointer against null, an alignment) is checked once per path: each must set the documented block up; a null key with a non-zero length is outside the contract. Hash primitives are uninterpreted events whose outputs are fresh symbols. Premise R-C12-HASH re-runs all rules of C10/C11.",
         "note": "MAC values are not computed; the hash is C10/C11; the caller passing the same key to finalize is an API contract.",
         "technique": "finite-class (key length) symbolic path summaries with uninterpreted hash events",
     },
     "C13": {
-        "text": "RFC 5869 structure: one-shot = the two outlen classes w.r.t. 8160 (above: -1, no call, no write; else extract, expand, wipe, 0); extract = HMAC(salt, IKM) with counter 1 and nothing " "buffered on every path it distinguishes (on a path where a pointer is null or its length is 0 any pointer may be handed on with that length; a substitute of another length is not decided); "
+        "text": "RFC 5869 structure: one-shot = the two outlen classes w.r.t. 8160 read off a plain comparison of outlen with a constant (arithmetic on outlen in front of the comparison, or a returned value that is not a constant of the function: not decided) (above: -1, no call, no write; else extract, expand, wipe, 0); extract = HMAC(salt, IKM) with counter 1 and nothing " "buffered on every path it distinguishes (on a path where a pointer is null or its length is 0 any pointer may be handed on with that length; a substitute of another length is not decided); "
                 "expand analysed for each of the 33 buffer positions, each short-request length, and one generic loop iteration per counter class {0, 1, other}: T(n) = HMAC(PRK, T(n-1) | "
                 "info | n) with the counter byte absorbed before its 8-bit increment, refusal with a zero-filled remainder when the counter is 0, left-over bytes served first, min(32, remaining) bytes "
                 "handed out per block, cursor/remaining in lock-step. HMAC calls are uninterpreted events with fresh output symbols; buffer contents tracked byte for byte. The 255-block limit is a "
